@@ -54,12 +54,15 @@ def ref_is_bomb(entries, lim):
 
 
 class _Info:
-    __slots__ = ("file_size", "compress_size", "filename", "_d")
+    __slots__ = ("file_size", "compress_size", "filename", "_d", "external_attr")
 
     def __init__(self, fs, cs, isdir, i):
         self.file_size = fs
         self.compress_size = cs
         self._d = isdir
+        # a directory is what zipfile says it is (name ends in "/"); the MS-DOS directory attribute alone does not make a
+        # member a directory - zipfile would still inflate it. Odd positions carry the bit on *files* to show it is ignored.
+        self.external_attr = 0x10 if (isdir or i % 2 == 1) else 0
         self.filename = f"m{i}/" if isdir else f"m{i}.xml"
 
     def is_dir(self):
@@ -200,6 +203,11 @@ def forged_variants(fmt, tier, only=None):
     # a directory entry with absurd sizes must be ignored
     m = list(base) + [{"name": "extra/dir/", "data": b"", "method": 0, "file_size": 5 * G1, "compress_size": 0, "is_dir": True}]
     yield "dir-ignored", zipforge.zipforge(m)
+    # a FILE entry (no trailing slash: zipfile inflates it) that carries the MS-DOS directory attribute, with bomb sizes
+    m = list(base) + [{"name": "extra/notadir.bin", "data": b"\0" * (1 << 20), "method": 8, "external_attr": 0x10}]
+    yield "dosattr-file-bomb", zipforge.zipforge(m)
+    m = list(base) + [{"name": "extra/notadir2.bin", "data": b"x", "method": 0, "file_size": 2 * G1, "compress_size": 10, "external_attr": 0x10}]
+    yield "dosattr-file-size", zipforge.zipforge(m)
     # honest high-ratio member (1 MiB of zeros deflated: ratio ~1000 > 500)
     m = list(base) + [{"name": "extra/zeros.bin", "data": b"\0" * (1 << 20), "method": 8}]
     yield "honest-zeros", zipforge.zipforge(m)
